@@ -326,6 +326,11 @@ REGISTRY["C13"]["teq"].append({"engine": "conc", "quick": {"n": 24, "mode": "mem
 REGISTRY["C12"]["teq"].append(seq({"only": "limited", "autocheck": 1, "n": 6, "ops": 80, "seedoff": 212}, {"only": "limited", "autocheck": 1, "seedoff": 212}))
 REGISTRY["C13"]["teq"].append(seq({"only": "limited", "n": 10, "ops": 80, "seedoff": 113}, {"only": "limited", "seedoff": 113}))
 REGISTRY["C11"]["teq"].append(_f1(11))
+for _asan in (False, True):
+    REGISTRY["C20"]["teq"].append({"engine": "abuf", "quick": {"n": 1500, "seedoff": 20}, "thorough": {"n": 30000, "seedoff": 20}, "asan": _asan,
+                                    "oracle": True, "mismatch_is_failure": True, "timeout": 3400,
+                                    "nontrivial": lambda case, res: " L" in case and "panic" in res, "distinct_key": lambda case, res: case,
+                                    "what": ("under AddressSanitizer: " if _asan else "") + "the public AlignedBuffer driven directly: new(capacity) for odd, tiny, block-multiple and block-multiple +-1 sizes, sequences of set_len (within, equal to and beyond the capacity) and clear, the whole safe slice written and read back after every step; capacity(), len(), refused set_len and the allocation counter compared with Model.AlignedBuf; oracle: the allocator's usable size of the block covers the advertised capacity and the block is 4096-aligned"})
 REGISTRY["C14"]["teq"].append({"engine": "scansched", "quick": {"n": 40, "seedoff": 314}, "thorough": {"n": 1500, "seedoff": 314},
                                 "oracle": True, "mismatch_is_failure": True, "timeout": 3400,
                                 "nontrivial": lambda case, res: case.count(" S") >= 3 and (" D" in case.split(" S", 1)[-1] or " P" in case.split(" S", 1)[-1]) and res != "",
